@@ -31,6 +31,17 @@ func Observe(tag string, x int)      {}
 func Disjoint(a, b any) bool         { return true }
 func SameObject(a, b any) bool       { return false }
 func JSONInput(tag string) []byte    { return nil }
+
+// JSONDoc builds an input document for FromJSON: class 0 syntax error, 1 empty input, 2 null, 3 a number,
+// 4 array of vals, 5 object keys[i]:vals[i]; element `bad` (if >= 0) is a JSON string where a number is expected.
+func JSONDoc(class int, keys, vals []int, bad int) []byte { return nil }
+
+// JSONKind classifies bytes: 0 not valid JSON, 2 null, 3 scalar, 4 array, 5 object.
+func JSONKind(data []byte) int { return 0 }
+
+// Track starts recording whether anything reachable from roots is modified; Changed reports it.
+func Track(roots ...any) {}
+func Changed() bool      { return false }
 func Unsupported(why string)         {}
 
 // Concrete reports whether b is known without asking the solver (always true natively).
